@@ -324,3 +324,32 @@ def rt_overrides(ctx, prop):
         ctx.ob(rule, ok)
         if not ok:
             ctx.violation(rule, 'onl/sim/rt.py::imports', nm, '%s must be time.%s (is %r)' % (nm, nm, imp))
+
+
+def queue_writers(ctx, prop):
+    for q in ('put_queue', 'get_queue'):
+        kind = q.split('_')[0]
+        check_writers(ctx, '%s.W.%s' % (prop, q), q, {
+            'BaseResource.__init__': 'fresh queue', '%s.__init__' % kind.capitalize(): 'enqueue on creation',
+            '%s.cancel' % kind.capitalize(): 'remove on cancel (followed by a rescan)',
+            'BaseResource._trigger_%s' % kind: 'pop of a granted request'}, 4,
+            'request queues change only on creation, cancel and grant')
+
+
+def items_writers(ctx, prop):
+    rule = prop + '.W.items'
+    allowed = {'Store.__init__': 'empty', 'Store._do_put': 'tail insert', 'Store._do_get': 'head removal',
+               'PriorityStore._do_put': 'heap insert', 'PriorityStore._do_get': 'heap pop',
+               'FilterStore._do_get': 'first match removal'}
+    check_writers(ctx, rule, 'items', allowed, 6, 'store contents change only in the _do_* methods')
+
+
+def heap_imports(ctx, prop):
+    rule = prop + '.W.heapq'
+    mod = ctx.repo.modules['onl.sim.resources.store']
+    for nm in ('heappush', 'heappop'):
+        imp = mod.imports.get(nm)
+        ok = imp == ('heapq', nm)
+        ctx.ob(rule, ok)
+        if not ok:
+            ctx.violation(rule, 'onl/sim/resources/store.py::imports', nm, '%s must be heapq.%s (is %r)' % (nm, nm, imp))
